@@ -174,7 +174,7 @@ Section Strict.
   Lemma strict_str n : forall t s, R (ref_dec_str_g E P true n t s) (ref_dec_str_g E P false n t s).
   Proof.
     induction n as [|n IHn].
-    all: induction t as [ | | | | | | m' | k' | e' | t' IHt | fr' t' IHt | t' IHt | ts IHts | pre IHpre mid IHmid IHmide post IHpost | kt IHkt vt IHvt | t' IHt | c' | c' | c' | t' IHt | kt IHkt vt IHvt | bx t' IHt ]
+    all: induction t as [ | | | | | | m' | k' | e' | t' IHt | fr' t' IHt | t' IHt | ts IHts | pre IHpre mid IHmid IHmide post IHpost | kt IHkt vt IHvt | t' IHt | c' | c' | c' | t' IHt | kt IHkt vt IHvt | bx t' IHt | ls ]
       using sty_ind'; intros s; rewrite (ref_dec_str_unfold E P true), (ref_dec_str_unfold E P false); try apply R_refl; try apply IHt.
     all: try (apply R_bind_same; apply R_mapM; intros x _; apply IHt).
     all: try (apply R_bind_same; generalize (utf8_chars s) as l; induction IHts as [|t1 ts H1 Hts IH]; intros l;
@@ -197,7 +197,7 @@ Section Strict.
   Proof.
     induction d as [ | b | z | f | s | m b | l IHl | l IHl | fr l IHl | kvs IHk | c fs IHf | e m | k w | c l IHl | tg ]
       using pv_rect'; unfold same_ok.
-    all: intros t; induction t as [ | | | | | | m' | k' | e' | t' IHt | fr' t' IHt | t' IHt | ts | pre mid IHmid post | kt IHkt vt IHvt | t' IHt | c' | c' | c' | t' IHt | kt IHkt vt IHvt | bx t' IHt ];
+    all: intros t; induction t as [ | | | | | | m' | k' | e' | t' IHt | fr' t' IHt | t' IHt | ts | pre mid IHmid post | kt IHkt vt IHvt | t' IHt | c' | c' | c' | t' IHt | kt IHkt vt IHvt | bx t' IHt | ls ];
       rewrite (ref_dec_unfold E P true), (ref_dec_unfold E P false); try apply R_refl.
     (* Optional *)
     all: try solve [ cbn [is_none]; first [ apply R_refl | apply IHt ] ].
